@@ -181,6 +181,12 @@ def _innermost_in(tb: Any, filename: str) -> bool:
     return tb.tb_frame.f_code.co_filename == filename
 
 
+def _innermost_line(tb: Any) -> int:
+    while tb.tb_next is not None:
+        tb = tb.tb_next
+    return int(tb.tb_lineno)
+
+
 def run_batch(job: dict) -> dict:
     specs: list[dict] = job["specs"]
     modname: str = job["modname"]
@@ -279,10 +285,10 @@ def run_batch(job: dict) -> dict:
             try:
                 fn(*args)
             except RecursionError:
-                exc = ("RecursionError", False, "")
+                exc = ("RecursionError", False, "", -1)
             except BaseException as e:  # noqa: BLE001
                 inner = _innermost_in(e.__traceback__, filename) if e.__traceback__ is not None else False
-                exc = (type(e).__name__, inner, str(e)[:160])
+                exc = (type(e).__name__, inner, str(e)[:160], _innermost_line(e.__traceback__) if inner else -1)
             stats["calls"] += 1
             for pid, verdict, vrep, trep in rec.obs:
                 stats["probe_observations"] += 1
@@ -306,8 +312,17 @@ def run_batch(job: dict) -> dict:
                 if exc[0] in ("TypeError", "AttributeError") and exc[1] and i in tainted:
                     stats["unflagged_outside_fragment_any"] += 1
                 elif exc[0] in ("TypeError", "AttributeError") and exc[1]:
-                    fn_flags.add("a")
-                    viols.append(_viol(s, i, "a", argrepr, None, exc[0] + ": " + exc[2], "", text, spans))
+                    dead = [p for p, ent in tab.items() if ent["line"] == exc[3] and ent["type"] is None]
+                    if dead:
+                        # raised by an expression mypy never checked because it treated it as unreachable:
+                        # that is clause (c) (unreachable code executed), of which the error is a consequence
+                        fn_flags.add("c")
+                        stats["obs_unreachable_raised"] += 1
+                        viols.append(_viol(s, i, "c", argrepr, dead[0], exc[0] + ": " + exc[2],
+                                           "<no type-map entry>", text, spans))
+                    else:
+                        fn_flags.add("a")
+                        viols.append(_viol(s, i, "a", argrepr, None, exc[0] + ": " + exc[2], "", text, spans))
                 elif exc[0] in ("TypeError", "AttributeError"):
                     stats["type_errors_raised_in_library_frames"] += 1  # not clause (a): innermost frame is not program code
                 elif exc[0] == "RecursionError":
@@ -332,7 +347,8 @@ def run_batch(job: dict) -> dict:
         if len(samples) < 2 and narrowed and not fn_flags:
             a, b = spans[i]
             samples.append({"key": s["key"], "source": "\n".join(text.split("\n")[a - 1:b]),
-                            "probe_types": {str(p): str(tab[p]["type"]) for p in sorted(tab)}})
+                            "probe_types": {str(p): (_modfree(str(tab[p]["type"])) if tab[p]["type"] is not None
+                                                     else "<unreachable: no type-map entry>") for p in sorted(tab)}})
     return {"stats": dict(stats), "violations": viols, "outcomes": dict(outcomes),
             "static_types": sorted(static_types)[:400], "n_static_types": len(static_types), "samples": samples,
             "rejected_msgs": dict(rejected_msgs.most_common(8)),
